@@ -85,6 +85,36 @@ def le3(a, b, rt=1e-9):
     return {a <= b}
 
 
+def hoo_depth_bounds(n, nu, rho):
+    """admissible values of ceil((ln(n)/2 - ln(1/nu)) / ln(1/rho)).  Away from integers this is one value.  Within
+    1e-9 of an integer D the sign of x - D is decided exactly in rational arithmetic (x > D  <=>  nu^2 n rho^(2D) > 1);
+    the value obtained by evaluating the published expression in floating point is accepted as well, so neither an
+    exact nor a float implementation of the published rule can raise an alarm."""
+    import numpy as _np
+    from fractions import Fraction as F
+    x = (math.log(n) / 2 - math.log(1 / nu)) / math.log(1 / rho)
+    if not near_int(x):
+        return {math.ceil(x)}, x, False
+    D = int(round(x))
+    q = F(nu) ** 2 * n * F(rho) ** (2 * D)
+    exact = D + 1 if q > 1 else D
+    xf = (_np.log(n) / 2 - _np.log(1 / nu)) / _np.log(1 / rho)
+    return {exact, int(_np.ceil(xf)), math.ceil(x)}, x, q == 1
+
+
+def radius_le_threshold(phase, pulls, nu, rho, depth):
+    """admissible truth values of sqrt(8 phase/(2+pulls)) <= nu rho^depth: the float evaluation, plus - when the two
+    sides are within 1e-9 - the exact rational comparison of the squares"""
+    import numpy as _np
+    from fractions import Fraction as F
+    rad = math.sqrt(8 * phase / (2 + pulls))
+    thr = nu * rho ** depth
+    out = {bool(_np.sqrt(8 * phase / (2 + pulls)) <= nu * rho ** depth), rad <= thr}
+    if close(rad, thr, 1e-9):
+        out.add(F(8 * phase, 2 + pulls) <= (F(nu) * F(rho) ** depth) ** 2)
+    return out, rad, thr
+
+
 def tplus(i):
     """2**ceil(log2 i) for integer i >= 1, computed exactly"""
     k = 0
